@@ -152,7 +152,8 @@ class Multiplexer(ComplexDop):
         elif case_spec is None:
             if self.default_case is None:
                 raise EncodeError(f"Multiplexer {self.short_name} does not define a default case")
-            key_value = 0
+            mux_case = self.default_case
+            key_value = self._get_default_case_key_value()
         else:
             raise EncodeError(f"Illegal case specification '{case_spec}' for "
                               f"multiplexer {self.short_name}")
